@@ -60,7 +60,7 @@ def gen(rng, tier):
     pk = config['bit_config']
     cols_all = columns()
     cases = []
-    for i in range(150 if tier == 'quick' else 2500):
+    for i in range(150 if tier == 'quick' else 5000):
         use_pds = rng.random() < 0.5
         cols = [c for c in cols_all if (c.startswith('PDS') if use_pds else True) or not (c[2:] in pk and pk.get(c[2:], {}).get('field_processor') == 'PDS')]
         if use_pds:
